@@ -40,6 +40,9 @@ func checkC17(c *core.Ctx) {
 	ruleMetadataMerge(c)
 	ruleHistoryTriggers(c)
 	ruleMetadataWritersDate(c)
+	// "a read at time t returns the metadata as it was at t": the bound on the history tables is
+	// the inclusive `date <= ?PIT` (temporal predicate typing shared with C05)
+	ruleTemporalClauses(c)
 }
 
 func ruleMetadataMerge(c *core.Ctx) {
